@@ -393,3 +393,12 @@ Theorem C02_delete_lines_P_roundtrip :
     o_text (put false 1 (apply_op OpDelete ins (mkO t i None) (RLines a b kc))) = t.
 Proof. exact delete_lines_P_roundtrip. Qed.
 Print Assumptions C02_delete_lines_P_roundtrip.
+
+(** (26) yy then p: the cursor's line stands a second time right below itself, and nothing else changes. *)
+Theorem C02_yank_line_then_p_duplicates :
+  forall (ins t : text) (i : nat), (i <= length t)%nat ->
+    let lo := line_start_from t i in let e := line_end t i in
+    o_text (put true 1 (apply_op OpYank ins (mkO t i None) (RLines i i true)))
+    = firstn e t ++ [nl] ++ slice t lo e ++ skipn e t.
+Proof. exact yank_line_then_p_duplicates. Qed.
+Print Assumptions C02_yank_line_then_p_duplicates.
